@@ -129,6 +129,16 @@ class Run:
         dst = "63:262142" if self.sc.get("third_dst", "self") == "bcast" else tid
         return str(Command.put_bind(" I", tid, codes, dst_id=dst))
 
+    def foreign_frames(self) -> tuple[str, str]:
+        """A handshake between two *other* devices going on at the same time: its accept and its confirm (the frames
+        of this flow with both parties' ids replaced) - addressed to neither device under test."""
+        flow = self.fl["flow"]
+        r_id, s_id = list(self.fl["resp"])[0], list(self.fl["supp"])[0]
+        fr = f"{r_id[:3]}0{r_id[4:]}" if r_id[3] != "0" else f"{r_id[:3]}9{r_id[4:]}"
+        fs = self.fl["third"]
+        swap = lambda f: f.replace(r_id, fr).replace(s_id, fs)  # noqa: E731
+        return swap(flow[1]), swap(flow[2])
+
     # -- one attempt ------------------------------------------------------------------------------
     def calls(self):
         from ramses_rf import Command
@@ -204,6 +214,10 @@ class Run:
         self.loop = asyncio.get_running_loop()
         fl = self.fl
         kl = {**fl["resp"], **fl["supp"], fl["third"]: {"class": list(fl["supp"].values())[0]["class"]}}
+        if self.sc.get("foreign"):   # the other pair's respondent is a known device too (its frames are not filtered)
+            r_id = list(fl["resp"])[0]
+            fr = f"{r_id[:3]}0{r_id[4:]}" if r_id[3] != "0" else f"{r_id[:3]}9{r_id[4:]}"
+            kl[fr] = {"class": list(fl["resp"].values())[0]["class"]}
         cfg = {"disable_discovery": True, "disable_qos": False, "enforce_known_list": True}
         self.ether = Ether(self.loop, self.policy)
         self.gr, self.tr = await fakes.make_port_gateway(gwy_id=GWY_R, config=cfg, known_list=kl,
@@ -222,6 +236,12 @@ class Run:
         third = self.sc.get("third", -1)
         if third >= 0:
             self.loop.call_later(third / 1000, self.tr.rx, self.third_offer())
+        # unrelated binding traffic heard by both gateways: another pair's accept / confirm, at the given times (ms)
+        for ms in self.sc.get("foreign", []):
+            acc, cfm = self.foreign_frames()
+            for t_ in (self.tr, self.ts):
+                self.loop.call_later(ms / 1000, t_.rx, acc)
+                self.loop.call_later((ms + 7) / 1000, t_.rx, cfm)
         pr, ps = (bool(x) for x in self.sc.get("present", [1, 1]))
         one = await self.round_(pr, ps)
         br, bs = self.r._bind_context.is_binding, self.s._bind_context.is_binding
